@@ -104,7 +104,7 @@ void profile_storm(RunCtx& ctx)
             if (decl != std::string::npos)
                 c.bytes.insert(decl + 13, "&e" + std::to_string(depth) + ";");
             c.entry = rng.below(3);
-            what = "entity-bomb depth=" + std::to_string(depth) + " fan=" + std::to_string(fan);
+            what = "entity-bomb";
             ctx.count("content-fault:entity-bomb");
         } else if (kind < 50) {
             bool use_corpus = !corpus().empty() && rng.chance(0.2);
@@ -197,7 +197,7 @@ void profile_storm(RunCtx& ctx)
         c.sched = ctx.draw_sched(rng, envfault && rng.chance(0.5));
         if (envfault && rng.chance(0.4))
             c.alloc_fail_at = 1 + (int64_t)rng.below(1u << rng.range(0, 14));
-        c.ceiling = envfault ? 0 : default_ceiling(c.bytes.size());
+        c.ceiling = envfault && what.rfind("entity-bomb", 0) != 0 ? 0 : default_ceiling(c.bytes.size());
         if (!ctx.keep(i))
             continue;
         ctx.hint = what;
